@@ -19,5 +19,6 @@ package utils
 //@   props C06 C07 C08
 //@   nopanic
 //@   modifies nothing
+//@   ensures (len(s) == 0) == (len(result) == 0)
 //@   loop 1 invariant fresh(out)
 //@   loop 1 decreases len(rs) - rangeindex
